@@ -694,7 +694,7 @@ def run(ctx):
     with multiprocessing.get_context("fork").Pool(2) as pool:       # 2 workers x 2 racing solvers = 4 cores
         # second opinions (all three solvers run to completion/cap): one kind sequence in the quick tier,
         # two (not the most expensive ones) in the thorough tier
-        sec = {0} if tier == "quick" else {2, 9}
+        sec = {3} if tier == "quick" else {2, 9}
         outs = pool.map(check_combo, [(c, tier, seed, B, i in sec) for i, (c, B) in enumerate(jobs)], chunksize=1)
     seen_roles = set()
     caps = []
